@@ -131,6 +131,17 @@ func corpus() []Input {
 	c = append(c, mk("add-one-merge-control", ml, mlInit, "", false,
 		[]string{"T1@api.commit", "T2*", "T1*", "T3*"},
 		txn(1, "w", "commit", add(3)), txn(2, "w", "commit", upd(2)), txn(3, "w", "commit", upd(4))))
+	// values OUTSIDE the node: T3's commit needs one refetch-and-merge round (T2 changed the tree first); T1,
+	// whose Commit then FAILS ("detected a newer version of item"), has already written its value under the
+	// SAME value-blob id as T3's committed value (seen in the trace: T3 blob.Add [x] ... T1 blob.Add [x])
+	vo := sopx.StoreOpts{Slot: 2, Unique: true, InNode: false}
+	voInit := []KV{{20, 20}, {40, 40}, {30, 30}, {50, 50}, {60, 60}, {10, 10}}
+	c = append(c, mk("failed-writer-overwrites-committed-value-blob", vo, voInit, "nonserializable:failed-txn-value-persisted", false,
+		[]string{"T1@api.commit", "T2@api.commit", "T3@api.commit", "T2*", "T3*", "T1*"},
+		txn(1, "w", "commit", upd(40)), txn(2, "w", "commit", add(25)), txn(3, "w", "commit", upd(40))))
+	c = append(c, mk("failed-writer-value-blob-no-merge-control", vo, voInit, "", false,
+		[]string{"T1@api.commit", "T2@api.commit", "T2*", "T1*"},
+		txn(1, "w", "commit", upd(40)), txn(2, "w", "commit", upd(40))))
 	// lost update control
 	c = append(c, mk("lost-update-control", ml, mlInit, "", false,
 		[]string{"T1@api.commit", "T2@api.commit", "T1*", "T2*"},
